@@ -12,7 +12,8 @@ use std::rc::Rc;
 
 /// rules used by the runner suite only (control flow is judged here, not the meaning of the rules): a non-linear left side
 /// that starts to match once its two children are found to be the same class up to a symmetry
-const EXTRA: [(&str, &str, &str, &[(&str, &str)]); 2] = [("k-same", "(k ?a ?a)", "?a", &[]), ("k-same-h", "(k ?a ?a)", "(h ?a)", &[])];
+const EXTRA: [(&str, &str, &str, &[(&str, &str)]); 3] =
+    [("k-same", "(k ?a ?a)", "?a", &[]), ("k-same-h", "(k ?a ?a)", "(h ?a)", &[]), ("k-comm", "(k ?a ?b)", "(k ?b ?a)", &[])];
 
 fn rule_at(i: usize) -> &'static (&'static str, &'static str, &'static str, &'static [(&'static str, &'static str)]) {
     if i < POOL.len() { &POOL[i] } else { &EXTRA[i - POOL.len()] }
@@ -50,6 +51,7 @@ pub fn exec_runner_p(start: Vec<ATerm>, rules: Vec<usize>, iter_limit: usize, no
         rules.iter().map(|i| rule_at(*i).0).collect::<Vec<_>>().join("."),
         fail_at
     );
+    let desc2 = desc.clone();
     let r = in_fresh_thread(move || {
         intern_names();
         for nm in ["i", "z", "y", "x", "o"] {
@@ -57,6 +59,15 @@ pub fn exec_runner_p(start: Vec<ATerm>, rules: Vec<usize>, iter_limit: usize, no
         }
         let mut tags: Vec<String> = Vec::new();
         let rws: Vec<Rewrite<Main>> = rules.iter().map(|i| mk_rule(rule_at(*i))).collect();
+        // half of the runs: the same rule objects were used on another e-graph (the same start terms) before
+        if desc2.bytes().fold(0u64, |h, b| h.wrapping_mul(31).wrapping_add(b as u64)) % 2 == 1 {
+            let mut warm: EGraph<Main> = EGraph::new(());
+            for t in &start {
+                warm.add_expr(to_recexpr::<Main>(t));
+            }
+            let _ = guarded(|| apply_rewrites(&mut warm, &rws));
+            let _ = slotted_egraphs::verif::take_events();
+        }
         let recs: Rc<RefCell<Vec<IterRec>>> = Rc::new(RefCell::new(Vec::new()));
         let tracked: Rc<RefCell<Vec<AppliedId>>> = Rc::new(RefCell::new(Vec::new()));
         let (stop, iterations, report_nodes, eg, initial): (String, usize, usize, EGraph<Main>, IterRec);
@@ -420,6 +431,28 @@ pub fn run(ctx: &mut Ctx) {
         }
         let fail_at = if rng.chance(1, 4) { Some(rng.below(3)) } else { None };
         let eqsat = rng.chance(1, 3);
+        if rng.chance(1, 10) {
+            // two instances of one rule in the same round that bind both variables to the same class and differ only in how
+            // the slots are shared: `x op x` (inserted first) and `x op y`; both must be rewritten before the run may stop
+            let var = |c: u32| ATerm { v: 2, fields: vec![CField::Slot(c)], children: vec![] };
+            let bin = |v: usize, a: ATerm, b: ATerm| ATerm { v, fields: vec![CField::App, CField::App], children: vec![a, b] };
+            let op = [4usize, 5, 14][rng.below(3)];
+            let (x, y) = (4u32, 8u32);
+            let mut st = vec![bin(op, var(x), var(x)), bin(op, var(x), var(y))];
+            if rng.chance(1, 4) {
+                st.reverse();
+            }
+            if rng.chance(1, 3) {
+                st.push(bin(op, var(y), var(x)));
+            }
+            let rule = match op {
+                4 => POOL.iter().position(|r| r.0 == "add-comm").unwrap(),
+                5 => POOL.iter().position(|r| r.0 == "mul-comm").unwrap(),
+                _ => POOL.len() + 2,
+            };
+            ctx.emit(exec_runner_p(st, vec![rule], 30, 1500, None, eqsat, false));
+            continue;
+        }
         if rng.chance(1, 8) {
             // an iteration whose only effect is a new class symmetry (no new e-node, no merged class): `S = x op y` and its
             // mirror image `y op x` are one class with swapped arguments; commutativity turns the swap into a symmetry, and only
